@@ -610,6 +610,12 @@ func (e *Engine) typeAssert(st *State, x *ssa.TypeAssert) bool {
 	if iv.T != nil {
 		if it, isIface := x.AssertedType.Underlying().(*types.Interface); isIface {
 			okv = types.Implements(iv.T, it)
+			if _, g := iv.V.(GlobVal); g && strings.HasSuffix(x.AssertedType.String(), "glob.Glob") {
+				okv = true
+			}
+			if _, sb := iv.V.(stubObj); sb {
+				okv = true
+			}
 			if !okv {
 				// pointer receiver methods
 				okv = types.AssignableTo(iv.T, x.AssertedType)
